@@ -30,9 +30,9 @@
 (* block files fall back to their last Sync.  Known defects of the code    *)
 (* appear as the implementation layer disagreeing with the property layer  *)
 (* in a narrowly excused way (Excused: index rows whose file pruning       *)
-(* deleted or a roll-over closed unsynced); `obs.io' shows them to the     *)
-(* harness, which reports them under their own keys when the real code     *)
-(* reproduces them and reports everything else as a violation.             *)
+(* deleted); `obs.io' shows them to the harness, which reports them under  *)
+(* their own keys when the real code reproduces them and reports           *)
+(* everything else as a violation.                                         *)
 (***************************************************************************)
 EXTENDS Naturals, Integers, Sequences, FiniteSets, TLC
 
@@ -70,12 +70,11 @@ VARIABLES
   model, recov,     \* property layer
   up,               \* process running (FALSE between Crash and Reopen)
   everPruned,       \* history: file numbers deleted by pruning
-  rolledRaw,        \* history: files closed by a roll-over while not fully synced
   cnt,              \* budgets used
   last,             \* the step just taken (read by the harness)
   obs               \* what the harness must observe after the step
 
-vars == <<ldb, ck, cr, files, wc, txs, cm, model, recov, up, everPruned, rolledRaw, cnt, last, obs>>
+vars == <<ldb, ck, cr, files, wc, txs, cm, model, recov, up, everPruned, cnt, last, obs>>
 
 -----------------------------------------------------------------------------
 Keys   == {KeyOrder[i]   : i \in DOMAIN KeyOrder}
@@ -144,13 +143,7 @@ Unreadable(E, F) == {b \in AbsBlk(E) : ~Readable(F, E[IKey(b)], b)}
 PruneDangling(E, F) ==
   {b \in AbsBlk(E) : E[IKey(b)].f \in everPruned /\ ~Readable(F, E[IKey(b)], b)}
 
-\* ... and the ones in a file that a roll-over closed without syncing it (the
-\* later metadata flush only syncs the then-current file), which a power
-\* loss may have cut.
-RollDangling(E, F) ==
-  {b \in AbsBlk(E) : E[IKey(b)].f \in rolledRaw /\ ~Readable(F, E[IKey(b)], b)}
-
-Excused(E, F) == PruneDangling(E, F) \cup RollDangling(E, F)
+Excused(E, F) == PruneDangling(E, F)
 
 -----------------------------------------------------------------------------
 \* Property-layer operations.
@@ -191,8 +184,7 @@ RenderM(m) ==
 
 \* io: blocks the implementation layer predicts to be indexed but unreadable
 \* in that view (non-empty only for the known pruning defects).
-RenderV(m, io) == [kv |-> RenderM(m).kv, blk |-> m.blk, io |-> io,
-                   ior |-> {b \in io : Eff[IKey(b)].f \in rolledRaw \ everPruned}]
+RenderV(m, io) == [kv |-> RenderM(m).kv, blk |-> m.blk, io |-> io]
 \* the explicit cursor of a transaction: where it stands and, when it has
 \* moved since the last update, the value there
 RenderCur(t) ==
@@ -224,7 +216,7 @@ Init ==
   /\ cm = NoCm
   /\ model = InitModel /\ recov = {InitModel}
   /\ up = TRUE
-  /\ everPruned = {} /\ rolledRaw = {}
+  /\ everPruned = {}
   /\ cnt = [tx |-> 0, rd |-> 0, crash |-> 0]
   /\ last = [a |-> "Init", keys |-> KeyOrder, vals |-> ValSet, names |-> NameOrder,
               depth |-> MaxDepth, blocks |-> BlockOrder,
@@ -241,13 +233,13 @@ Begin(h) ==
                                                  !.snap = Eff, !.m = model]]
   /\ cnt' = IF h = W THEN [cnt EXCEPT !.tx = @ + 1] ELSE [cnt EXCEPT !.rd = @ + 1]
   /\ last' = [a |-> "Begin", h |-> h]
-  /\ UNCHANGED <<ldb, ck, cr, files, wc, cm, model, recov, up, everPruned, rolledRaw>>
+  /\ UNCHANGED <<ldb, ck, cr, files, wc, cm, model, recov, up, everPruned>>
 
 Rollback(h) ==
   /\ up /\ Idle /\ txs[h].st = "open"
   /\ txs' = [txs EXCEPT ![h] = ClosedTx]
   /\ last' = [a |-> "Rollback", h |-> h]
-  /\ UNCHANGED <<ldb, ck, cr, files, wc, cm, model, recov, up, everPruned, rolledRaw, cnt>>
+  /\ UNCHANGED <<ldb, ck, cr, files, wc, cm, model, recov, up, everPruned, cnt>>
 
 \* Writer operations (db.go bucket.Put/Delete/CreateBucket/DeleteBucket,
 \* transaction.StoreBlock/PruneBlocks).
@@ -255,7 +247,7 @@ WOpen == up /\ Idle /\ txs[W].st = "open" /\ txs[W].nops < MaxOps /\ txs[W].cur.
 WUpd(t2, l) ==
   /\ txs' = [txs EXCEPT ![W] = [t2 EXCEPT !.nops = @ + 1]]
   /\ last' = l
-  /\ UNCHANGED <<ldb, ck, cr, files, wc, cm, model, recov, up, everPruned, rolledRaw, cnt>>
+  /\ UNCHANGED <<ldb, ck, cr, files, wc, cm, model, recov, up, everPruned, cnt>>
 
 PutKey(t, rk, v) == [t EXCEPT !.pr = @ \ {rk}, !.pk = (rk :> v) @@ @]
 DelKeys(t, S)    == [t EXCEPT !.pk = Without(@, S), !.pr = @ \cup S]
@@ -354,7 +346,7 @@ CurCan(h) == up /\ Idle /\ txs[h].st = "open" /\ txs[h].cur.n < MaxCur
 CurSet(h, c, l) ==
   /\ txs' = [txs EXCEPT ![h].cur = [c EXCEPT !.n = @ + 1]]
   /\ last' = l @@ [a |-> "Cur", h |-> h, ret |-> c.st = "at"]
-  /\ UNCHANGED <<ldb, ck, cr, files, wc, cm, model, recov, up, everPruned, rolledRaw, cnt>>
+  /\ UNCHANGED <<ldb, ck, cr, files, wc, cm, model, recov, up, everPruned, cnt>>
 
 CurOpen(h, p) ==
   /\ CurCan(h) /\ txs[h].cur.st = "none"
@@ -389,7 +381,7 @@ CurDelete ==
                                                        !.cur = [c EXCEPT !.fresh = FALSE, !.n = @ + 1]] IN
         /\ txs' = [txs EXCEPT ![W] = t2]
         /\ last' = [a |-> "Cur", h |-> W, op |-> "Delete", ret |-> TRUE]
-        /\ UNCHANGED <<ldb, ck, cr, files, wc, cm, model, recov, up, everPruned, rolledRaw, cnt>>
+        /\ UNCHANGED <<ldb, ck, cr, files, wc, cm, model, recov, up, everPruned, cnt>>
 
 CurOps ==
   \/ \E h \in Handles, p \in BPaths : CurOpen(h, p)
@@ -419,7 +411,7 @@ CommitStart(fl) ==
   /\ txs' = [txs EXCEPT ![W].st = "commit"]
   /\ cm' = [NoCm EXCEPT !.ph = "del", !.i = 1, !.fl = fl, !.old = [f |-> wc.f, o |-> wc.o]]
   /\ last' = [a |-> "CommitStart", fl |-> fl]
-  /\ UNCHANGED <<ldb, ck, cr, files, wc, model, recov, up, everPruned, rolledRaw, cnt>>
+  /\ UNCHANGED <<ldb, ck, cr, files, wc, model, recov, up, everPruned, cnt>>
 
 \* 1. delete the files scheduled by pruning.
 StepDel ==
@@ -427,7 +419,7 @@ StepDel ==
   /\ LET t == txs[W] IN
      IF cm.i > Len(t.pd)
      THEN /\ CStep([cm EXCEPT !.ph = "blk", !.i = 1], Internal("del-done"))
-          /\ UNCHANGED <<ldb, ck, cr, files, wc, txs, everPruned, rolledRaw>>
+          /\ UNCHANGED <<ldb, ck, cr, files, wc, txs, everPruned>>
      ELSE \E res \in Fails :
           LET f == t.pd[cm.i] ok == res = "ok" /\ f \in DOMAIN files IN
           /\ files' = IF ok THEN Without(files, {f}) ELSE files
@@ -435,7 +427,9 @@ StepDel ==
           /\ CStep(IF ok THEN [Faulted(res) EXCEPT !.i = @ + 1]
                    ELSE [Faulted(res) EXCEPT !.ph = "end", !.err = TRUE],
                    Io("delete", f, IF ok THEN "ok" ELSE "fail"))
-          /\ UNCHANGED <<ldb, ck, cr, wc, txs, rolledRaw>>
+          /\ UNCHANGED <<ldb, ck, cr, wc, txs>>
+
+SyncFile(F, f) == [F EXCEPT ![f].synced = F[f].len]
 
 \* 2. per pending block: roll over when the record does not fit ...
 StepBlk ==
@@ -443,16 +437,25 @@ StepBlk ==
   /\ LET t == txs[W] IN
      IF cm.i > Len(t.pb)
      THEN /\ CStep([cm EXCEPT !.ph = "wloc"], Internal("blocks-done"))
-          /\ UNCHANGED <<ldb, ck, cr, files, wc, txs, everPruned, rolledRaw>>
+          /\ UNCHANGED <<ldb, ck, cr, files, wc, txs, everPruned>>
      ELSE LET roll == wc.o + RecLen(t.pb[cm.i]) > Limit
-              wc2  == IF roll THEN [f |-> wc.f + 1, o |-> 0, open |-> FALSE] ELSE wc IN
-          /\ wc' = wc2
-          \* the file left behind is closed without Sync
-          /\ rolledRaw' = IF roll /\ wc.f \in DOMAIN files /\ files[wc.f].synced < files[wc.f].len
-                          THEN rolledRaw \cup {wc.f} ELSE rolledRaw
-          /\ CStep([cm EXCEPT !.ph = IF wc2.open THEN "w1" ELSE "open", !.st = wc2.o],
-                   Internal(IF roll THEN "roll" ELSE "noroll"))
-          /\ UNCHANGED <<ldb, ck, cr, files, txs, everPruned>>
+              next == [f |-> wc.f + 1, o |-> 0, open |-> FALSE] IN
+          IF roll /\ wc.open
+          THEN \* the file left behind is synced, then closed (blockio.go
+               \* writeBlock); when the Sync fails the handle is closed anyway,
+               \* the cursor stays and the commit is rolled back
+               \E res \in Fails :
+               /\ files' = IF res = "ok" THEN SyncFile(files, wc.f) ELSE files
+               /\ wc' = IF res = "ok" THEN next ELSE [wc EXCEPT !.open = FALSE]
+               /\ CStep(IF res = "ok" THEN [cm EXCEPT !.ph = "open", !.st = 0]
+                        ELSE [Faulted(res) EXCEPT !.ph = "rb"],
+                        Io("sync", wc.f, res))
+               /\ UNCHANGED <<ldb, ck, cr, txs, everPruned>>
+          ELSE LET wc2 == IF roll THEN next ELSE wc IN
+               /\ wc' = wc2
+               /\ CStep([cm EXCEPT !.ph = IF wc2.open THEN "w1" ELSE "open", !.st = wc2.o],
+                        Internal(IF roll THEN "roll" ELSE "noroll"))
+               /\ UNCHANGED <<ldb, ck, cr, files, txs, everPruned>>
 
 NewFile == [len |-> 0, synced |-> 0, recs |-> {}]
 
@@ -466,7 +469,7 @@ StepOpen ==
         ELSE UNCHANGED <<wc, files>>
      /\ CStep([Faulted(res) EXCEPT !.ph = IF res = "ok" THEN "w1" ELSE "rb"],
               Io("openwrite", wc.f, res))
-     /\ UNCHANGED <<ldb, ck, cr, txs, everPruned, rolledRaw>>
+     /\ UNCHANGED <<ldb, ck, cr, txs, everPruned>>
 
 \* ... and write network, length, payload, checksum.
 WriteAt(F, f, off, n, whole, b, st) ==
@@ -487,7 +490,7 @@ StepWrite ==
        /\ wc' = [wc EXCEPT !.o = @ + wrote]
        /\ CStep([Faulted(res) EXCEPT !.ph = IF res = "ok" THEN NextW(cm.ph) ELSE "rb"],
                 [a |-> "io", op |-> "write", f |-> wc.f, res |-> res, part |-> cm.ph, n |-> n])
-       /\ UNCHANGED <<ldb, ck, cr, txs, everPruned, rolledRaw>>
+       /\ UNCHANGED <<ldb, ck, cr, txs, everPruned>>
 
 StepRow ==
   /\ cm.ph = "row"
@@ -495,7 +498,7 @@ StepRow ==
          loc == [f |-> wc.f, o |-> cm.st, l |-> RecLen(b)] IN
      /\ txs' = [txs EXCEPT ![W] = PutKey(t, IKey(b), loc)]
      /\ CStep([cm EXCEPT !.ph = "blk", !.i = @ + 1], Internal("row"))
-     /\ UNCHANGED <<ldb, ck, cr, files, wc, everPruned, rolledRaw>>
+     /\ UNCHANGED <<ldb, ck, cr, files, wc, everPruned>>
 
 \* blockStore.handleRollback(old): close + delete newer files, reopen,
 \* truncate, sync; every failure is only logged and the cursor is reset anyway.
@@ -509,7 +512,7 @@ StepRb ==
           /\ CStep([cm EXCEPT !.ph = "rbdel"], Internal("rb-close"))
      ELSE /\ CStep([cm EXCEPT !.ph = "rbopen"], Internal("rb-same-file"))
           /\ UNCHANGED wc
-  /\ UNCHANGED <<ldb, ck, cr, files, txs, everPruned, rolledRaw>>
+  /\ UNCHANGED <<ldb, ck, cr, files, txs, everPruned>>
 
 StepRbDel ==
   /\ cm.ph = "rbdel"
@@ -520,7 +523,7 @@ StepRbDel ==
      /\ CStep([Faulted(res) EXCEPT !.ph = IF ~ok THEN "rbend"
                                            ELSE IF wc.f - 1 > cm.old.f THEN "rbdel" ELSE "rbopen"],
               Io("delete", wc.f, IF ok THEN "ok" ELSE "fail"))
-     /\ UNCHANGED <<ldb, ck, cr, txs, everPruned, rolledRaw>>
+     /\ UNCHANGED <<ldb, ck, cr, txs, everPruned>>
 
 StepRbOpen ==
   /\ cm.ph = "rbopen"
@@ -534,7 +537,7 @@ StepRbOpen ==
              ELSE UNCHANGED <<wc, files>>
           /\ CStep([Faulted(res) EXCEPT !.ph = IF res = "ok" THEN "rbtrunc" ELSE "rbend"],
                    Io("openwrite", wc.f, res))
-  /\ UNCHANGED <<ldb, ck, cr, txs, everPruned, rolledRaw>>
+  /\ UNCHANGED <<ldb, ck, cr, txs, everPruned>>
 
 Truncate(F, f, to) ==
   [F EXCEPT ![f] = [len |-> to, synced |-> Min(@.synced, to),
@@ -546,15 +549,12 @@ StepRbTrunc ==
      /\ files' = IF res = "ok" THEN Truncate(files, wc.f, cm.old.o) ELSE files
      /\ CStep([Faulted(res) EXCEPT !.ph = IF res = "ok" THEN "rbsync" ELSE "rbend"],
               Io("truncate", wc.f, res))
-     /\ UNCHANGED <<ldb, ck, cr, wc, txs, everPruned, rolledRaw>>
-
-SyncFile(F, f) == [F EXCEPT ![f].synced = F[f].len]
+     /\ UNCHANGED <<ldb, ck, cr, wc, txs, everPruned>>
 
 StepRbSync ==
   /\ cm.ph = "rbsync"
   /\ \E res \in Fails :
      /\ files' = IF res = "ok" THEN SyncFile(files, wc.f) ELSE files
-     /\ rolledRaw' = IF res = "ok" THEN rolledRaw \ {wc.f} ELSE rolledRaw
      /\ CStep([Faulted(res) EXCEPT !.ph = "rbend"], Io("sync", wc.f, res))
      /\ UNCHANGED <<ldb, ck, cr, wc, txs, everPruned>>
 
@@ -562,14 +562,14 @@ StepRbEnd ==
   /\ cm.ph = "rbend"
   /\ wc' = [wc EXCEPT !.f = cm.old.f, !.o = cm.old.o]
   /\ CStep([cm EXCEPT !.ph = "end", !.err = TRUE], Internal("rb-reset"))
-  /\ UNCHANGED <<ldb, ck, cr, files, txs, everPruned, rolledRaw>>
+  /\ UNCHANGED <<ldb, ck, cr, files, txs, everPruned>>
 
 \* 3. the write cursor row joins the pending keys.
 StepWloc ==
   /\ cm.ph = "wloc"
   /\ txs' = [txs EXCEPT ![W] = PutKey(txs[W], WKey, [f |-> wc.f, o |-> wc.o])]
   /\ CStep([cm EXCEPT !.ph = IF cm.fl THEN "sync" ELSE "merge"], Internal("wloc"))
-  /\ UNCHANGED <<ldb, ck, cr, files, wc, everPruned, rolledRaw>>
+  /\ UNCHANGED <<ldb, ck, cr, files, wc, everPruned>>
 
 \* 4a. dbCache.commitTx without flush: merge into the cache.
 StepMerge ==
@@ -578,7 +578,7 @@ StepMerge ==
      /\ ck' = Overlay(ck, t.pk, t.pr)
      /\ cr' = (cr \ DOMAIN t.pk) \cup t.pr
   /\ CStep([cm EXCEPT !.ph = "end"], Internal("merge"))
-  /\ UNCHANGED <<ldb, files, wc, txs, everPruned, rolledRaw>>
+  /\ UNCHANGED <<ldb, files, wc, txs, everPruned>>
 
 \* 4b. with flush: sync the current block file, one leveldb transaction for
 \* the cache, one for the transaction itself.
@@ -592,7 +592,7 @@ StepSync ==
           /\ CStep(IF res = "ok" THEN [cm EXCEPT !.ph = "fldb"]
                    ELSE [Faulted(res) EXCEPT !.ph = "end", !.err = TRUE],
                    Io("sync", wc.f, res))
-  /\ UNCHANGED <<ldb, ck, cr, wc, txs, everPruned, rolledRaw>>
+  /\ UNCHANGED <<ldb, ck, cr, wc, txs, everPruned>>
 
 StepFldb ==
   /\ cm.ph = "fldb"
@@ -609,7 +609,7 @@ StepFldb ==
           /\ cm' = IF res = "ok" THEN [cm EXCEPT !.ph = "tldb"]
                    ELSE [Faulted(res) EXCEPT !.ph = "end", !.err = TRUE]
           /\ last' = Io("ldbcommit", 0, res)
-  /\ UNCHANGED <<files, wc, txs, model, up, everPruned, rolledRaw, cnt>>
+  /\ UNCHANGED <<files, wc, txs, model, up, everPruned, cnt>>
 
 StepTldb ==
   /\ cm.ph = "tldb"
@@ -618,7 +618,7 @@ StepTldb ==
      /\ CStep(IF res = "ok" THEN [cm EXCEPT !.ph = "end"]
               ELSE [Faulted(res) EXCEPT !.ph = "end", !.err = TRUE],
               Io("ldbcommit", 0, res))
-     /\ UNCHANGED <<ck, cr, files, wc, txs, everPruned, rolledRaw>>
+     /\ UNCHANGED <<ck, cr, files, wc, txs, everPruned>>
 
 \* 5. Commit returns; the transaction is closed either way.
 CommitEnd ==
@@ -629,7 +629,7 @@ CommitEnd ==
   /\ recov' = IF cm.err THEN recov
               ELSE IF cm.fl THEN {txs[W].m} ELSE recov \cup {txs[W].m}
   /\ last' = [a |-> "CommitEnd", err |-> cm.err]
-  /\ UNCHANGED <<ldb, ck, cr, files, wc, up, everPruned, rolledRaw, cnt>>
+  /\ UNCHANGED <<ldb, ck, cr, files, wc, up, everPruned, cnt>>
 
 CommitSteps ==
   \/ StepDel \/ StepBlk \/ StepOpen \/ StepWrite \/ StepRow
@@ -657,7 +657,7 @@ Crash ==
   \* an in-flight commit may or may not have become durable
   /\ recov' = recov \cup (IF cm.ph # "none" THEN {txs[W].m} ELSE {})
   /\ last' = [a |-> "Crash", power |-> PowerLoss]
-  /\ UNCHANGED <<ldb, model, everPruned, rolledRaw>>
+  /\ UNCHANGED <<ldb, model, everPruned>>
 
 \* What Open does to the block files given the durable cursor row.  The
 \* result carries ok = FALSE when reconcileDB reports corruption.
@@ -685,7 +685,7 @@ Reopen ==
      /\ model' = Abs(ldb)
      /\ recov' = {Abs(ldb)}
      /\ last' = [a |-> "Reopen", ok |-> r.ok]
-  /\ UNCHANGED <<ldb, ck, cr, txs, cm, everPruned, rolledRaw, cnt>>
+  /\ UNCHANGED <<ldb, ck, cr, txs, cm, everPruned, cnt>>
 
 \* Clean shutdown and restart: Close flushes (sync + one leveldb transaction),
 \* Open reconciles.
@@ -701,7 +701,7 @@ Restart ==
      /\ recov' = {model}
      /\ last' = [a |-> "Restart", ok |-> r.ok]
   /\ cnt' = [cnt EXCEPT !.crash = @ + 1]
-  /\ UNCHANGED <<txs, cm, model, everPruned, rolledRaw>>
+  /\ UNCHANGED <<txs, cm, model, everPruned>>
 
 -----------------------------------------------------------------------------
 Ops ==
